@@ -34,6 +34,13 @@ static node_t *const g_nodep[7] = { &g_n0, &g_n1, &g_n2, &g_n3, &g_n4, &g_n5,
 #define NODE(i) (g_nodep[i]->n)
 static fstree_t g_fs;
 
+/* target of the get_filename call site of fstree_sort_files (not reached) */
+const char *stub_get_filename(sqfs_istream_t *strm)
+{
+	(void)strm;
+	return "sortfile";
+}
+
 void harness(void)
 {
 	sqfs_s64 prio[NMAX];
